@@ -23,7 +23,7 @@ pub struct RefEntry {
     pub slip_type: u8,
 }
 
-fn type_code(t: SlipType) -> u8 {
+pub fn type_code(t: SlipType) -> u8 {
     match t {
         SlipType::Normal => 0,
         SlipType::ATR => 1,
